@@ -18,6 +18,9 @@ func init() {
 	register(&Rule{ID: "C08.3", Prop: "C08", Min: 2,
 		Text: "while closing actively replies may still be written and frames still read: goonRead() accepts exactly {Ok, ActiveClosing} (write side: C07.5); graceCtxWait waits on graceCtxWaitGroup under graceCtxMutex",
 		Run:  runC08_3})
+	register(&Rule{ID: "C08.5", Prop: "C08", Min: 3,
+		Text: "an entered handler's reply is written whatever the session's closing state: every normal path of handleCall passes writeReply (no early return that skips the reply once the handler ran); same obligations as C03.4 (the write gate C07.5 admits replies while closing actively)",
+		Run:  runC03_4})
 	register(&Rule{ID: "C08.4", Prop: "C08", Min: 3,
 		Text: "peer.Close joins all sessions: the accept-stopping listener close dominates the session range; each ranged session gets exactly one asynchronous sess.Close whose result is sent to the error channel and counted; exactly `count` results are received before returning",
 		Run:  runC08_4})
